@@ -70,6 +70,7 @@ fn main() {
         "c01" => c01::run(&args),
         "c01w" => c01::worker(&args),
         "c02" => c02::run(&args),
+        "c02t" => c02::run_traces(&args),
         "c03" => c03::run(&args),
         "c07" => c07::run(&args),
         "c11" => c11::run(&args),
